@@ -9,8 +9,8 @@
 
    records: [a |-> "header", kinds |-> [value id |-> kind]]            (first)
             [a |-> "reset"]                                            new execution, file removed
-            [a |-> "open", l, res]   [a |-> "close"]
-            [a |-> "write", p, n, v, res]
+            [a |-> "open", s, l, res]   [a |-> "close", s]        s = handle slot (two CheckpointFile
+            [a |-> "write", s, p, n, v, res]                       objects may hold the file open at once)
             [a |-> "read", p, n, got]   got = value id | "error" | "other"            *)
 EXTENDS Checkpoint, IOUtils
 
@@ -19,6 +19,7 @@ TKind(v) == T[1].kinds[v]
 TValues == DOMAIN T[1].kinds
 TPaths == <<"p1", "p2", "p3">>
 TNames == <<"n1", "n2", "n3">>
+TSlots == {"s1", "s2"}
 
 VARIABLE i
 tvars == <<exists, file, handle, h, i>>
@@ -26,11 +27,11 @@ tvars == <<exists, file, handle, h, i>>
 TInit == Init /\ i = 2
 
 Explains(r) ==
-  CASE r.a = "reset" -> exists' = FALSE /\ file' = Empty /\ handle' = NoHandle
-    [] r.a = "open"  -> OpenEffect(r.l) /\ r.res = (IF OpenOK(r.l) THEN "ok" ELSE "err")
-    [] r.a = "close" -> CloseEffect \/ (handle = NoHandle /\ UNCHANGED <<exists, file, handle>>)
-    [] r.a = "write" -> \/ WriteRefused(r.p, r.n, r.v) /\ r.res = "err"
-                        \/ WriteStored(r.p, r.n, r.v) /\ r.res = "ok"
+  CASE r.a = "reset" -> exists' = FALSE /\ file' = Empty /\ handle' = AllClosed
+    [] r.a = "open"  -> OpenEffect(r.s, r.l, r.res)      \* r.res must be one of the admitted outcomes
+    [] r.a = "close" -> CloseEffect(r.s) \/ (handle[r.s] = NoHandle /\ UNCHANGED <<exists, file, handle>>)
+    [] r.a = "write" -> \/ WriteRefused(r.s, r.p, r.n, r.v) /\ r.res = "err"
+                        \/ WriteStored(r.s, r.p, r.n, r.v) /\ r.res = "ok"
     [] r.a = "read"  -> /\ UNCHANGED <<exists, file, handle>>
                         /\ r.got = (IF ReadResult(file, r.p, r.n) = NoVal THEN "error"
                                     ELSE ReadResult(file, r.p, r.n))
